@@ -87,9 +87,13 @@ class FileResolver:
             rel = path.name
             if self._exclude_spec.match_file(rel):
                 return False
-            # Check parent directory components (only the path's own parts, not up to /)
-            for part in path.parts[:-1]:
+            # Check parent directory components (only the path's own parts, not up to /),
+            # by name and by their path as given, so that patterns like `docs/drafts/` apply.
+            parents = path.parts[:-1]
+            for i, part in enumerate(parents):
                 if self._exclude_spec.match_file(part + "/"):
+                    return False
+                if self._exclude_spec.match_file("/".join(parents[: i + 1]) + "/"):
                     return False
         if self._exceeds_max_size(path):
             return False
